@@ -201,6 +201,7 @@ class SimSocket(Conn):
 
     def sendall(self, data) -> None:
         _mark("send")
+        self._fruitless_waits = 0
         if self.closed_by_client:
             raise OSError(9, "Bad file descriptor")
         data = self._client_wrote(bytes(data))
@@ -367,6 +368,11 @@ class SimSocket(Conn):
             if not self._rx:
                 if timeout is None:
                     raise Blocks(f"waiting for readability of connection {self.cid} can never end")
+                # nothing is pending and, in this synchronous world, nothing ever will be unless the client sends first: a caller that
+                # keeps polling a silent connection is waiting for ever (the polling variety of a blocking read)
+                self._fruitless_waits = getattr(self, "_fruitless_waits", 0) + 1
+                if self._fruitless_waits > 256:
+                    raise Blocks(f"{self._fruitless_waits} timed waits for readability of the silent connection {self.cid}: polling can never end")
                 self.world.clock.advance_ns(int(timeout * 1e9))
                 return False
             kind = self._rx[0][0]
